@@ -6,7 +6,7 @@ LEVEL = "proof"
 
 def run(ctx):
     npat = 900 if ctx.quick() else 6000
-    generic.standard(ctx, "Props_C03", "rx", "api-vs-regexp", lists=(), ledger="known/C03.ledger",
+    generic.standard(ctx, "Props_C03", "rx", "api-vs-regexp", lists=(), model=True, ledger="known/C03.ledger",
                      extra_args=["-prop", "C03", "-patterns", npat, "-haystacks", 24])
     ctx.coverage["explanation"] = (
         "Coq (Nfa.v, NfaRef.v, Backtrack.v): the reference search on the byte-level Thompson NFA is a priority-ordered DFS with a visited "
